@@ -1,64 +1,44 @@
-/-
-F210 (FIXED in /repo: the Shift-text work-around uses the reported shifted code when the report carries a
-printable one) — Shift + a letter key whose shifted character is NOT `unicode.ToUpper` of the key (Turkish
-layout: the key 'i' produces 'İ' U+0130; also 'k' → Kelvin sign U+212A, 'ß' → 'ẞ' U+1E9E: each is
-`IsUpper` with `ToLower` = the key, but `ToUpper(key)` is another rune):
+import VaxisModel.Lemmas.ConcShutdown
 
-* legacy report: the character 'İ' → `Key{Keycode: 'i', ShiftedCode: 'İ', Modifiers: Shift, Text: "İ"}`;
-* kitty report with the shifted code and without the text field, `CSI 105:304;2 u`: before the fix
-  `Text: "I"` (invented from `ToUpper(Keycode)` although the report says which character Shift produces),
-  now `Text: "İ"`.
-
-Before the fix binding ('İ', Shift) matched the legacy event only and binding ('I', Shift) the kitty event
-only.  This file now proves the regression statements on the model of the fixed code and that
-`cross_protocol_char_shift` holds without any hypothesis relating `ToUpper c` to `C`.
--/
-import VaxisModel.Props.C09Uni
-
+/-! F210 (**fixed**, /repo "fix: Suspend and Resume are serialised by a mutex"): the application
+calls `Suspend()` while a kill signal makes the input goroutine call `Close()`, which calls
+`Suspend()` too.  `vx.suspended` was a plain field read and written by both (data race reported by
+the race detector, harness op `race sigsuspend`); both could pass the guard — two close signals for
+one parser, the second `p.close <- true` blocks for ever — or `Close` saw the flag set, skipped
+`Suspend` and closed the console under the application's running `Suspend`.  `Suspend` and `Resume`
+now hold `vx.suspendMu` from their first statement to their return.  In the model: `suspLock`. -/
 namespace VaxisModel.Witness.F210
-open VaxisModel.Model.Key VaxisModel.Spec.KeyEnc VaxisModel.Spec.KeyEncUni VaxisModel.Gen.Keys
+open VaxisModel.Model.Conc VaxisModel.Lemmas.ConcShutdown
 
-/-- Go's values on ASCII and for 'İ' (U+0130): `IsUpper`, `ToLower('İ') = 'i'`, `ToUpper('i') = 'I'`. -/
-def turkUni : Uni where
-  isUpper r := asciiUni.isUpper r || decide (r = 304)
-  isLower r := asciiUni.isLower r
-  isLetter r := asciiUni.isLetter r || decide (r = 304)
-  isGraphic r := asciiUni.isGraphic r || decide (r = 304)
-  isPrint r := asciiUni.isPrint r || decide (r = 304)
-  toUpper r := asciiUni.toUpper r
-  toLower r := if r = 304 then 105 else asciiUni.toLower r
-  foldEq a b := asciiUni.foldEq a b
+def s0 : SSys := { inbuf := [some 1] }
 
-/-- `cross_protocol_char_shift` without the former hypothesis `ToUpper c = C`. -/
-def cross_protocol_char_shift_full : Prop :=
-  ∀ (u : Uni) (c C : Int) (f : Form),
-    validRune c = true → validRune C = true → c ≠ 127 → u.isUpper C = true → u.toLower C = c →
-    lookup2 (c, 117) functional = none →
-    (f.withShifted = true ∧ f.withBase = false ∧ f.hasMods = true) →
-    (f.withText = false → u.isPrint c = true) → (f.withText = false → u.isPrint C = true) →
-    keyString u (decodeKey u (.print [C])) =
-      keyString u (decodeKey u (kittySeq c 117 { key := c, mods := shiftBit, shifted := C, text := [C] } f)) ∧
-    ∀ b m, «matches» u (decodeKey u (.print [C])) b m =
-           «matches» u (decodeKey u (kittySeq c 117 { key := c, mods := shiftBit, shifted := C, text := [C] } f)) b m
+/-- The application's `Suspend` (caller 0) is inside its critical section when the signal arm of the
+input goroutine starts `Close` (caller 1). -/
+def prefix1 : List SLabel :=
+  [.callSuspend, .caller 0,                 -- lock, guard: suspended := true
+   .signal, .input .kill,                   -- SIGTERM; the input goroutine calls Close (caller 1)
+   .caller 1, .caller 1]                    -- test-and-set of `closed`, quit event; next: Suspend
 
-def kittyForm : Form := { withShifted := true, withMods := true }
+/-- `Close`'s `Suspend` waits for the lock … -/
+theorem close_waits_for_the_lock :
+    (match srun s0 prefix1 with
+     | some s => s.suspLock && s.callers == [{ pc := .signalClose, inClose := false }, { pc := .checkSuspended }] &&
+                 (snext s (.caller 1)).isNone && (snext s (.caller 0)).isSome
+     | none => false) = true := by decide
 
-/-- Both reports now carry the text 'İ' (before the fix: [304] vs [73]). -/
-theorem dotted_I_text_same :
-    (decodeKey turkUni (.print [304])).text = [304] ∧
-    (decodeKey turkUni (kittySeq 105 117 { key := 105, mods := shiftBit, shifted := 304, text := [304] } kittyForm)).text = [304] := by
-  decide
+def rest : List SLabel :=
+  [.caller 0, .caller 0,                    -- close signal, DA1 query
+   .termReply, .parser, .parser, .parser, .parser, .parser,   -- the pending key is emitted; the parser takes the signal, emits EOF, stops
+   .drain 0,                                -- (WaitClose discards what is in the channel)
+   .caller 0,                               -- WaitClose returns; Suspend returns and unlocks
+   .caller 1, .caller 1]                    -- Close: lock, already suspended; console.Close, close(chQuit)
 
-/-- Binding ('İ', Shift) matches both, binding ('I', Shift) neither. -/
-theorem dotted_I_same :
-    «matches» turkUni (decodeKey turkUni (.print [304])) 304 shiftBit = true ∧
-    «matches» turkUni (decodeKey turkUni (kittySeq 105 117 { key := 105, mods := shiftBit, shifted := 304, text := [304] } kittyForm)) 304 shiftBit = true ∧
-    «matches» turkUni (decodeKey turkUni (.print [304])) 73 shiftBit = false ∧
-    «matches» turkUni (decodeKey turkUni (kittySeq 105 117 { key := 105, mods := shiftBit, shifted := 304, text := [304] } kittyForm)) 73 shiftBit = false := by
-  decide
-
-theorem cross_protocol_char_shift_full_holds : cross_protocol_char_shift_full :=
-  fun u c C f hv hV hdel hup hlow hfun hf hp hpC =>
-    VaxisModel.Props.C09Uni.cross_protocol_char_shift u c C f hv hV hdel hup hlow hfun hf hp hpC
+/-- … and then finds the session suspended: both calls return, everything is done, `chQuit` is closed
+once, the lock is free. -/
+theorem both_return :
+    (match srun s0 (prefix1 ++ rest) with
+     | some s => s.callers.all (·.pc == .returned) && s.ppc == .done && s.ipc == .done && s.quitCloses == 1 && !s.suspLock &&
+                 s.suspendedFlag && s.closedFlag
+     | none => false) = true := by decide
 
 end VaxisModel.Witness.F210
